@@ -364,42 +364,6 @@ Proof.
       repeat split; try lia; [apply bytes_ok_app; [apply pad_seg_ok|apply bytes_ok_app; assumption]|constructor; assumption].
 Qed.
 
-Lemma n6_put_eq (r : list Z) off s : (off + length s <= length r)%nat ->
-  n6_put r off s = firstn off r ++ s ++ skipn (off + length s) r.
-Proof. intros H. unfold n6_put. rewrite (firstn_all2 s) by lia. reflexivity. Qed.
-
-Lemma skipn_skipn' {A} (l : list A) n m : skipn n (skipn m l) = skipn (m + n) l.
-Proof. revert l; induction m as [|m IH]; intros l; [reflexivity|]. destruct l; [rewrite !skipn_nil; reflexivity|]. cbn. apply IH. Qed.
-
-Lemma n6_put_app (pre rest s : list Z) : (length s <= length rest)%nat ->
-  n6_put (pre ++ rest) (length pre) s = pre ++ s ++ skipn (length s) rest.
-Proof.
-  intros H. rewrite n6_put_eq by (rewrite app_length; lia).
-  rewrite firstn_app, Nat.sub_diag, firstn_all. cbn [firstn]. rewrite app_nil_r.
-  rewrite skipn_app, (skipn_all2 pre) by lia. cbn [app].
-  replace (length pre + length s - length pre)%nat with (length s) by lia. reflexivity.
-Qed.
-
-Lemma write_segs_app segs : forall pre rest, (length (concat segs) <= length rest)%nat ->
-  write_segs (pre ++ rest) (length pre) segs = Some (pre ++ concat segs ++ skipn (length (concat segs)) rest).
-Proof.
-  induction segs as [|s t IH]; intros pre rest H; [reflexivity|].
-  cbn [write_segs concat] in *. rewrite app_length in H.
-  replace (Nat.leb (length pre + length s) (length (pre ++ rest))) with true
-    by (symmetry; apply Nat.leb_le; rewrite app_length; lia).
-  rewrite n6_put_app by lia. rewrite app_assoc.
-  replace (length pre + length s)%nat with (length (pre ++ s)) by (rewrite app_length; reflexivity).
-  rewrite IH by (rewrite skipn_length; lia).
-  rewrite skipn_skipn', app_length, <- !app_assoc. reflexivity.
-Qed.
-
-Lemma write_segs_ok segs region : length (concat segs) = length region ->
-  write_segs region 0 segs = Some (concat segs).
-Proof.
-  intros H. pose proof (write_segs_app segs [] region ltac:(lia)) as P. cbn [app length] in P.
-  rewrite P, H, skipn_all, app_nil_r. reflexivity.
-Qed.
-
 (* SerializeTo of an extension header as a function of the layer, the payload and FixLengths alone *)
 Definition ext_wire (b : bool) (l : ext) (payload : list Z) (fx : bool) : outcome (list Z) * ext :=
   let '(segs, os', total) := tlvs_ser b fx (e_opts l) 2 in
